@@ -20,8 +20,8 @@ Proof. exact close_local_stream. Qed.
 
 (* an error-caused wind-down never waits for the peer *)
 Theorem C08_wind_down_nowait : forall f code se,
-  exists g, wind_down f code false se = finish_task g code /\
-            f_out g = f_out f /\ f_done g = f_done f /\ f_closed g = true.
+  exists g, wind_down f code false se false = finish_task g code /\
+            f_out g = [] /\ f_done g = f_done f /\ f_closed g = true.
 Proof. exact wind_down_nowait. Qed.
 
 Theorem C08_invalid_message_ends : forall e b,
@@ -30,3 +30,28 @@ Theorem C08_invalid_message_ends : forall e b,
   consumed = true /\ e_phase (f_ep f') = Ended /\ e_slots (f_ep f') = [] /\
   f_done f' = [e_idx (f_ep f'); 109] /\ f_out f' = [] /\ f_closed f' = true.
 Proof. exact invalid_message_ends. Qed.
+
+(* the send loop never loses or reorders a queued message, whatever the sink's readiness *)
+Theorem C08_settle_conserves : forall f,
+  match e_phase (f_ep f) with WindDown6 _ | Ended => False | _ => True end ->
+  f_out (settle f) ++ e_txq (f_ep (settle f)) = e_txq (f_ep f) ++ f_out f.
+Proof. exact settle_conserves. Qed.
+
+(* a handle drop on a healthy, ready transport: everything queued goes out, in order, and only
+   then is the sink closed *)
+Theorem C08_settle_drain : forall f code ended,
+  e_phase (f_ep f) = WindDown4 code ended -> e_permits (f_ep f) = None ->
+  f_out (settle f) = e_txq (f_ep f) ++ f_out f /\ f_closed (settle f) = true.
+Proof. exact settle_drain. Qed.
+
+(* queued under back-pressure, then the handle is dropped, then the sink becomes ready:
+   computed on the pair model (data, Finish, a datagram: all transmitted in order, then Close) *)
+Example C08_drop_flushes_under_backpressure :
+  let a := init_ep 0 4 1 2 1 0 3 [7] in
+  let b := init_ep 1 4 1 2 1 0 3 [] in
+  let '(s, outs) := run (mkSys a b [] [])
+     [LOpen 0 80 [97]; LDeliver 0; LDeliver 1; LOpenPoll 0 0; LPermits 0 0;
+      LWrite 0 0 [1]; LWrite 0 0 [2]; LShutdown 0 0; LSendDgram 0 9 53 [] [5]; LDropMux 0; LPermits 0 999999] in
+  map (fun o => length (o_a o)) outs = [1; 0; 0; 0; 0; 0; 0; 0; 0; 0; 4]%nat /\
+  o_a_closed (last outs (mkLout [] [] [] false [] false [])) = true.
+Proof. vm_compute. auto. Qed.
